@@ -44,6 +44,7 @@ type c03 struct {
 	c   *wk.Ctx
 	s   *packet.Session
 	idx int64
+	n   int
 }
 
 func (t *c03) viol(key, detail string, cs map[string]any) {
@@ -769,7 +770,7 @@ func runC03(c *wk.Ctx) {
 		if !c.Mine(t.idx) {
 			continue
 		}
-		if i%2000 == 0 {
+		if t.n++; t.n%2000 == 0 { // per worker: the session's tables must stay small (the MAC table is searched linearly)
 			go t.s.Close()
 			t.s, _ = mon.NewSession(mon.NewRecorder(1), mon.DefaultNIC(), 0, 0, 0)
 		}
